@@ -76,3 +76,31 @@ def hexs(byte_list):
 
 def unhex(s):
     return list(bytes.fromhex(s))
+
+
+def run_probe_cases(ctx, cmd, n, timeout=1200):
+    """Run a probe that answers one JSON line per input case (field id = 0..n-1, in order).
+    Returns (results by id, crash) where crash is None or dict(id=<first unanswered case>, rc, stderr):
+    a probe killed by a signal in the middle of the list died *in the code under test* on that case."""
+    import subprocess
+    try:
+        p = subprocess.run(cmd, env=dict(os.environ, **ctx.env()), stdout=subprocess.PIPE, stderr=subprocess.PIPE, timeout=timeout)
+    except subprocess.TimeoutExpired:
+        raise InfraError("probe timed out: %s" % " ".join(cmd))
+    results = {}
+    for line in p.stdout.decode(errors="replace").splitlines():
+        try:
+            x = json.loads(line)
+        except ValueError:
+            continue                     # a torn last line of a crashed probe
+        results[x["id"]] = x
+    if p.returncode == 0:
+        if len(results) != n:
+            raise InfraError("probe answered %d of %d cases: %s" % (len(results), n, " ".join(cmd)))
+        return results, None
+    if p.returncode < 0 or p.returncode >= 128 or b"Sanitizer" in p.stderr:
+        nxt = 0
+        while nxt in results:
+            nxt += 1
+        return results, dict(id=nxt, rc=p.returncode, stderr=p.stderr.decode(errors="replace")[-1500:])
+    raise InfraError("probe failed rc=%d: %s\n%s" % (p.returncode, " ".join(cmd), p.stderr.decode(errors="replace")[-2000:]))
